@@ -3,7 +3,8 @@
 export GOFLAGS=-mod=mod GOPROXY=off GOSUMDB=off GOTOOLCHAIN=local
 id=$1; shift
 lid=$(echo $id | tr 'A-Z' 'a-z')
-wt=/tmp/wt-$id; sd=/tmp/seed-$id
+r=${SEED_ROUND:-}   # SEED_ROUND=2 evaluates the second round (/tmp/wt2-Cxx, /tmp/seed2-Cxx)
+wt=/tmp/wt$r-$id; sd=/tmp/seed$r-$id
 testdir=tests; [ "$id" = C13 ] && testdir=deploy
 cd $wt || exit 2
 if [ -z "$(git diff --stat)" ]; then echo "no source change in worktree; applying patch"; git apply $sd/patch.diff || exit 2; fi
@@ -12,11 +13,11 @@ echo "== full suite with the change (demo skipped)"
 go test -vet=off -count=1 -skip 'TestSeed' ./... 2>&1 | grep -v "no test files" | grep -v "^ok" | head -5; suite=${PIPESTATUS[0]}
 echo "suite exit=$suite"
 echo "== demo with the change (must fail)"
-go test -vet=off -count=1 -run 'TestSeed' ./$testdir/ > /tmp/seed-$id/demo_with.log 2>&1; with=$?
+go test -vet=off -count=1 -run 'TestSeed' ./$testdir/ > $sd/demo_with.log 2>&1; with=$?
 echo "demo-with exit=$with"
 git stash -q
 echo "== demo without the change (must pass)"
-go test -vet=off -count=1 -run 'TestSeed' ./$testdir/ > /tmp/seed-$id/demo_without.log 2>&1; without=$?
+go test -vet=off -count=1 -run 'TestSeed' ./$testdir/ > $sd/demo_without.log 2>&1; without=$?
 echo "demo-without exit=$without"
 git stash pop -q
 echo "== check on /repo with the change applied"
